@@ -64,13 +64,18 @@ let bl ((k, l) : bool * n list) = (if k then "1/" else "0/") ^ hex_of_bytes l
 let all_packers (o : opts) (c : cmd) : string =
   let p = pack_o o c in
   let base = match p with Some b -> hex_of_bytes b | None -> "none" in
-  let need = match p with Some b -> List.length b | None -> 0 in
+  (* RequiredSize, Pack(buffer) and Write(IOStack) are modelled on their own (Ser.v) *)
+  let need = int_of_n (required_size c) in
+  let pb sz = pack_buffer o c (n_of_int sz) in
+  let small = if need > 0 then need - 1 else 600 in
   String.concat "" [
     "packed="; base;
     ";rsz="; string_of_int need;
-    ";pbuf="; (match p with Some b -> "1/" ^ hex_of_bytes b | None -> "0/-");
-    ";psmall=0/"; string_of_int (if need > 0 then need - 1 else 600);
-    ";wr="; (match p with Some b -> "1/" ^ hex_of_bytes b | None -> "0/-");
+    ";pbuf="; (match pb need with Some (b, _) -> "1/" ^ hex_of_bytes b | None -> "0/-");
+    ";psmall="; (match pb small with Some (_, sz) -> "1/" ^ string_of_int (int_of_n sz) | None -> "0/" ^ string_of_int small);
+    ";wr="; (let (k, st) = write_iostack o c [] in if k then "1/" ^ hex_of_bytes st else "0/" ^ hex_of_bytes st);
+    ";wr2="; bl (write_iostack o c [n_of_int 0xaa; n_of_int 0xbb; n_of_int 0xcc]);
+    ";pbig="; (match pb 300 with Some (b, sz) -> Printf.sprintf "1/%d/%s" (int_of_n sz) (hex_of_bytes b) | None -> "0/300/-");
     ";papp="; bl (pack_append o [n_of_int 0xaa; n_of_int 0xcc; n_of_int 1] c);
     ";pwsc="; bl (pack_with_start_code o [] c);
     ";pwsc2="; bl (pack_with_start_code o [n_of_int 0x55] c) ]
@@ -158,6 +163,21 @@ let handle2 (p : string) : (string * string) option =
     (match pack c with
      | None -> Some (r, "disc:refused")
      | Some b -> Some (r ^ all_entry_points b (hex_of_bytes b) None, "disc:" ^ kind))
+  | ["nullctor"; v; cs; n] ->
+    let c0 = parse_cmd cs in
+    let nn = n_of_int (ios n) in
+    let base = if v = "b" then response_from_data c0 (set_param_data None nn) rDM_ACK N0
+               else Some (with_data c0 (set_param_data None nn)) in
+    (match base with
+     | None -> Some ("size=none", "nullctor:none")
+     | Some c ->
+       let r = Printf.sprintf "size=%d;cmd=%s;%s" (List.length c.c_data) (cmd_s c) (all_packers default_opts c) in
+       (match pack c with
+        | None -> Some (r, "nullctor:refused")
+        | Some b ->
+          let eqback = match inflate b with
+            | Ok c2 -> bool01 (cmd_eq_cpp c c2 && cmd_eq_cpp c2 c) | _ -> "none" in
+          Some (r ^ ";eqback=" ^ eqback, "nullctor:" ^ v ^ ":" ^ (if ios n = 0 then "len0" else "len>0"))))
   | ["null"; l] ->
     let st = int_of_n (verify_null (n_of_int (ios l))) in
     Some (Printf.sprintf "inf=rej;req=rej;dreq=rej;dresp=rej;resp=rej%d" st, "null:" ^ string_of_int st)
